@@ -109,7 +109,7 @@ SOURCES = {
     "synthetic": "bh wn",
 }
 BIG_KS = {"4ZUO.pdb": "ks", "1ncw.pdb.gz": "ks"}
-NCASES = {"quick": 208, "thorough": 9600}
+NCASES = {"quick": 416, "thorough": 9600}
 KINDS = ["bh", "bh", "bh", "wn", "wn", "ks", "ks", "ks"]
 FREQS = [0.0, 0.1, 0.5, 0.9, 1.0]
 MAX_ATOMS = {"quick": 650, "thorough": 1100}
